@@ -19,5 +19,6 @@ Allowed == done =>
    LET r == Obs[k] IN
    IF (r.lib \in {"true", "true+error"} /\ r.obs.parsed => Holds(r.obs))   \* a blob the independent reader cannot read is not judged
       /\ (r.must /\ Holds(r.obs) => r.lib = "true") /\ r.lib # "panic"
+      /\ (r.must => r.parse_ok /\ r.marshal_equal)          \* C16: third-party blobs parse; re-encoding the parsed attributes gives the signed bytes
    THEN PrintT(<<"OBS_JUDGED", k, Holds(r.obs)>>) ELSE PrintT(<<"OBS_REJECTED", k>>)
 =============================================================================
